@@ -235,11 +235,36 @@ func c02Root(w *World, r *Report) {
 	r.Check(deep, "R02.2", "PathStack.NewPathFromActual", afd.Pos(), "pushes a DeepCopy of the top path", "the predicate/operand path aliases the path of the enclosing step: steps added for an operand would change the outer path")
 	// current(): CodePathSetCurrent closure pops and installs a new relative path
 	cur := w.Method("xpath", "ProgBuilder", "CodePathSetCurrent")
-	cfd, cp := w.FuncDecl(cur)
-	cls := closuresIn(cfd)
+	cfd, _ := w.FuncDecl(cur)
 	okCur := false
-	if len(cls) == 1 {
-		okCur = len(allCallsTo(cp, cls[0], w.Method("xpath", "PathStack", "PopPath"))) == 1 && len(allCallsTo(cp, cls[0], npc)) == 1
+	if ins := builderInstrFuncs(w.SSAFunc(cur)); len(ins) == 1 {
+		// PopPath once, then NewPathFromCurrent once — wherever the two calls were put
+		pop, fresh := w.SSAFunc(w.Method("xpath", "PathStack", "PopPath")), w.SSAFunc(npc)
+		var seq []*ssa.Function
+		straight := true
+		var walk func(f *ssa.Function, d int)
+		walk = func(f *ssa.Function, d int) {
+			if len(f.Blocks) != 1 {
+				straight = false
+			}
+			for _, b := range f.Blocks {
+				for _, in := range b.Instrs {
+					c, ok := in.(*ssa.Call)
+					if !ok || c.Call.StaticCallee() == nil {
+						continue
+					}
+					g := c.Call.StaticCallee()
+					switch {
+					case g == pop || g == fresh:
+						seq = append(seq, g)
+					case d < 2 && g.Blocks != nil && strings.HasPrefix(pkgPathOf(g), modPath) && (calleesDeep(g, 2)[pop] || calleesDeep(g, 2)[fresh]):
+						walk(g, d+1)
+					}
+				}
+			}
+		}
+		walk(ins[0], 0)
+		okCur = straight && len(seq) == 2 && seq[0] == pop && seq[1] == fresh
 	}
 	r.Check(okCur, "R02.2", "current() instruction", cfd.Pos(), "PopPath; NewPathFromCurrent", "current() does not replace the path under construction by a fresh context-relative one")
 }
@@ -582,24 +607,13 @@ func c02Brackets(w *World, r *Report) {
 	r.Check(stepWhy == "", "R02.6", "step instruction key-name test", cfd.Pos(), "inside a predicate and toggle even ⇒ the name is the key name (literal); complementary to EvalLocPath's odd-skip", "the step instruction does not treat a name as key name exactly when it is the first path inside a predicate: "+stepWhy)
 	// PREDSTART / PREDEND
 	ps := w.Method("xpath", "ProgBuilder", "CodePredStart")
-	pfd, pp := w.FuncDecl(ps)
+	pfd, _ := w.FuncDecl(ps)
 	okStart := false
-	for _, c := range closuresIn(pfd) {
-		inc := false
-		for _, a := range assignsToField(pp, c, pc) {
-			switch x := a.(type) {
-			case *ast.AssignStmt:
-				if x.Tok == token.ADD_ASSIGN {
-					if v, ok := ConstInt(pp, x.Rhs[0]); ok && v == 1 {
-						inc = true
-					}
-				}
-			case *ast.IncDecStmt:
-				inc = x.Tok == token.INC
-			}
-		}
-		copies := len(allCallsTo(pp, c, w.Method("xpath", "PathStack", "NewPathFromActual"))) > 0 || len(allCallsTo(pp, c, w.Method("xpath", "ProgBuilder", "NewPathStackFromActual"))) > 0
-		if inc && copies {
+	isPC := func(fa *ssa.FieldAddr) bool { return isFieldAddrOf(fa, pc) }
+	for _, c := range builderInstrFuncs(w.SSAFunc(ps)) {
+		bodies := bodiesDeep(c, 2)
+		copies := calleesDeep(c, 3)[w.SSAFunc(w.Method("xpath", "PathStack", "NewPathFromActual"))]
+		if incrementsField(bodies, isPC, 1) && copies {
 			okStart = true
 		}
 	}
